@@ -685,6 +685,20 @@ async def run_program(spec: dict, rec: Rec, *, runtime=None, retry_builder=None,
             rec.wf = wf
             ctx2 = m["Context"].from_dict(wf, d)
             handler = wf.run(ctx=ctx2)
+            if spec.get("resnap"):
+                # the resumed run is serialized again at once (before its control loop had a turn), stopped, and resumed from THAT
+                # snapshot: a snapshot of a just-restored state must be as good as the one it was restored from
+                d2 = _json.loads(_json.dumps(handler.ctx.to_dict()))
+                rec.snapshot2 = d2
+                handler._external_adapter.abort()
+                keep2 = {asyncio.current_task(), stim} | set(getattr(rec, "ext_tasks", ()))
+                victims2 = [t for t in asyncio.all_tasks() if t not in keep2 and not t.done()]
+                for t in victims2:
+                    t.cancel()
+                await asyncio.gather(*victims2, return_exceptions=True)
+                wf = _build()
+                rec.wf = wf
+                handler = wf.run(ctx=m["Context"].from_dict(wf, d2))
             rec.handler = handler
             rec.resumed = True
             consumer = asyncio.create_task(consume_stream(rec, handler))
